@@ -64,12 +64,12 @@ func vPlan(K int, kp *vPool, ops []int) []*vPlanned {
 		nxt := cur.clone()
 		switch o.kind {
 		case vOpPut:
-			o.ki = verifChoice("ki", len(kp.keys))
+			o.ki = verifChoice("ki", kp.hot())
 			o.v = verifValue("v")
 			nxt.put(o.ki, o.v)
 			o.after = nxt
 		case vOpDelete:
-			o.ki = verifChoice("ki", len(kp.keys))
+			o.ki = verifChoice("ki", kp.hot())
 			nxt.del(o.ki)
 			o.after = nxt
 		case vOpBatch:
@@ -79,7 +79,7 @@ func vPlan(K int, kp *vPool, ops []int) []*vPlanned {
 			}
 			n := 1 + verifChoice("bops", bmax)
 			for i := 0; i < n; i++ {
-				ki := verifChoice("bki", len(kp.keys))
+				ki := verifChoice("bki", kp.hot())
 				del := verifChoice("bop", 2) == 1
 				var v []byte
 				if del {
